@@ -33,15 +33,16 @@ type Result struct {
 
 // Ctx is handed to a scenario.
 type Ctx struct {
-	T       *sim.Tape
-	Root    string
-	BinDir  string
-	Res     *Result
-	W       *World
-	Sample   bool
-	Suppress map[string]bool
+	T                     *sim.Tape
+	Root                  string
+	BinDir                string
+	Res                   *Result
+	W                     *World
+	Sample                bool
+	Suppress              map[string]bool
 	softClass, softDetail string
 	offerHeaders          bool
+	serverGC              bool
 }
 
 func (c *Ctx) Violation(class, format string, a ...interface{}) {
